@@ -67,7 +67,11 @@ def build_pattern(pat, alts):
                 last = r
         return last
 
-    return P.Pattern(fn)
+    return P.Pattern(fn), fn
+
+
+def _replacement(op, **_):
+    return op.Constant(value_float=0.0)
 
 
 def build_graph(graph, gouts, root):
@@ -109,31 +113,46 @@ def run_chunk(cases):
     for c in cases:
         key = json.dumps([c["pat"], c["alts"]])
         try:
+            from onnxscript.rewriter import pattern as P
+
             if key not in pcache:
                 pcache[key] = build_pattern(c["pat"], c["alts"])
-            pat = pcache[key]
+            pat, fn = pcache[key]
             model, nodes, back = build_graph(c["graph"], c["gouts"], c["root"])
             m = pat.match(model, model.graph, nodes[c["root"] - 1], check_nodes_are_removable=True)
+            # remove_nodes=False: the rule keeps the matched nodes, the removability side-condition does not apply.
+            # Judged through the public rule API (RewriteRule.try_rewrite) so that the flag's plumbing is covered.
+            keep_interesting = c["declK"] != c["decl"] or c["declCK"] != c["declC"] or c["mut"] in ("consumer", "graphout")
+            km = kcm = None
+            if keep_interesting:
+                kkey = "k" + key
+                if kkey not in pcache:
+                    pcache[kkey] = P.RewriteRule(fn, _replacement, remove_nodes=False)
+                model3, nodes3, _ = build_graph(c["graph"], c["gouts"], c["root"])
+                km = pcache[kkey].try_rewrite(model3, model3.graph, nodes3[c["root"] - 1]) is not None
             cm = None
             if any(pn["op"] == "C" for pn in c["pat"]):
-                # commute=True: the rule set tries every pattern of GraphPattern.commute()
-                from onnxscript.rewriter import pattern as P
-
-                ckey = "c" + key
-                if ckey not in pcache:
-                    pcache[ckey] = [P.Pattern(gp) for gp in pat._target_pattern.commute()]
-                cm = False
-                for q in pcache[ckey]:
-                    model2, nodes2, _ = build_graph(c["graph"], c["gouts"], c["root"])
-                    if q.match(model2, model2.graph, nodes2[c["root"] - 1], check_nodes_are_removable=True):
-                        cm = True
-                        break
+                # commute=True: the rule set tries every rule of RewriteRule.commute()
+                for keep in ((False, True) if keep_interesting else (False,)):
+                    ckey = ("ck" if keep else "c") + key
+                    if ckey not in pcache:
+                        pcache[ckey] = P.RewriteRule(fn, _replacement, remove_nodes=not keep).commute()
+                    hit = False
+                    for q in pcache[ckey]:
+                        model2, nodes2, _ = build_graph(c["graph"], c["gouts"], c["root"])
+                        if q.try_rewrite(model2, model2.graph, nodes2[c["root"] - 1]) is not None:
+                            hit = True
+                            break
+                    if keep:
+                        kcm = hit
+                    else:
+                        cm = hit
             if m:
                 b = {n: (back.get(id(m.bindings[n]), -1) if m.bindings.get(n) is not None else 0) for n in ("x", "y") if n in m.bindings}
                 ns = [int(n.name[1:]) for n in m.nodes]
-                out.append({"ok": True, "b": b, "ns": ns, "commuted": cm})
+                out.append({"ok": True, "b": b, "ns": ns, "commuted": cm, "keep": km, "keep_commuted": kcm})
             else:
-                out.append({"ok": False, "commuted": cm})
+                out.append({"ok": False, "commuted": cm, "keep": km, "keep_commuted": kcm})
         except Exception as e:  # the matcher must not raise on any pattern/graph
             out.append({"raise": f"{type(e).__name__}: {str(e)[:200]}"})
     return out
@@ -209,6 +228,26 @@ def run(ctx: core.Ctx):
                                             f"{'is not' if r['commuted'] else 'is'} an instance under operand swaps: {describe(c)}")
             else:
                 ctx.report(dict(c, real=r), f"commute=True misses an instance: {describe(c)}", finding="or_commits_first")
+        if r.get("keep") is not None:
+            ctx.add("keep_mode_cases")
+            if r["keep"] != c["implK"]:
+                mism += 1
+                if mism <= 8:
+                    print(f"SPEC-MISMATCH C06: remove_nodes=False: model {c['implK']} impl {r['keep']} on {describe(c)}")
+            if r["keep"] != c["declK"]:
+                ctx.report(dict(c, real=r), f"remove_nodes=False: rule {'fires' if r['keep'] else 'does not fire'} but the subgraph "
+                                            f"{'is not' if r['keep'] else 'is'} an instance (no removability condition applies): {describe(c)}",
+                           finding=(sorted(c["whyK"])[0] if r["keep"] == c["implK"] and c["whyK"] else None))
+        if r.get("keep_commuted") is not None and r["keep_commuted"] != c["declCK"]:
+            or_uses = sum(1 for pn in c["pat"] for v in pn["ins"] if v[0] == "or")
+            if r["keep_commuted"] and or_uses >= 2:
+                fnd = "commute_clone_unshares_or"
+            elif not r["keep_commuted"] and c["alts"]:
+                fnd = "or_commits_first"
+            else:
+                fnd = None
+            ctx.report(dict(c, real=r), f"remove_nodes=False, commute=True: some commuted rule {'fires' if r['keep_commuted'] else 'does not fire'} but the "
+                                        f"subgraph {'is not' if r['keep_commuted'] else 'is'} an instance under operand swaps: {describe(c)}", finding=fnd)
         ctx.sample({"case": describe(c), "declarative": c["decl"], "impl": r}, limit=5)
     ctx.set("distinct_nontrivial", nontriv)
     ctx.set("model_impl_mismatches", mism)
